@@ -72,6 +72,7 @@ func (bs *BlockingStrategy) ProcessData(data map[string]any) {
 		return
 	}
 
+	verifYieldPoint("block.get")
 	dataChan := bs.stream.safeGetDataChan()
 	if dataChan == nil {
 		return
@@ -194,6 +195,7 @@ func (ds *DropStrategy) ProcessData(data map[string]any) {
 		return
 	}
 
+	verifYieldPoint("drop.get")
 	dataChan := ds.stream.safeGetDataChan()
 	if dataChan == nil {
 		return
